@@ -20,7 +20,7 @@ type BankKey struct {
 func Bank() []BankKey {
 	out := make([]BankKey, len(bank))
 	for i, b := range bank {
-		out[i] = BankKey{b.name, b.class, b.key, b.mod}
+		out[i] = BankKey{b.name, b.class, b.key, b.mod16}
 	}
 	return out
 }
@@ -30,9 +30,18 @@ type MKeyset = mKeyset
 
 const TypePrefix = tp
 
-func Modelled(url string) bool                     { return modelled[url] }
-func Unmodelled(url string) bool                   { return unmodelled[url] }
-func AnyUnmodelled(ks *tinkpb.Keyset) bool         { return anyUnmodelled(ks) }
+// C13's view of the key types (frozen at the 16 types it was built on): the
+// other registered types are outside its scope whether or not C14 models them.
+func Modelled(url string) bool   { return base16[url] }
+func Unmodelled(url string) bool { return outside16[url] }
+func AnyUnmodelled(ks *tinkpb.Keyset) bool {
+	for _, k := range ks.GetKey() {
+		if outside16[k.GetKeyData().GetTypeUrl()] {
+			return true
+		}
+	}
+	return false
+}
 func KekAEAD(kek []byte) (tink.AEAD, error)        { return kekAEAD(kek) }
 func StdlibOpen(kek, ct, ad []byte) ([]byte, bool) { return stdlibOpen(kek, ct, ad) }
 func JSONKeyset(ks *tinkpb.Keyset) string          { return jsonKeyset(ks, hx.NewRng(1), 0) }
